@@ -32,6 +32,11 @@ def remaining_local(r, marker):
     for atom, pol in r.facts.order:
         if atom[0] == "lt" and atom[1] == Int(0) and isinstance(atom[2], tuple) and atom[2][0] == "havoc" and atom[2][1] == key:
             return atom[2]
+        # `if left == 0 { break }` at the top of a `loop`: the same test spelled as an inequality
+        if atom[0] == "eq" and pol is False:
+            for x, z in ((atom[1], atom[2]), (atom[2], atom[1])):
+                if z == Int(0) and isinstance(x, tuple) and x[0] == "havoc" and x[1] == key:
+                    return x
     return None
 
 
